@@ -47,8 +47,8 @@ def floors(tier):
     f = {"groups": 300, "schedules": 5000, "schedules_exhaustive_groups": 100, "thread_runs": 100,
          "thread_validations": 5000, "thread_runs_20plus_switches": 50, "observed_switches": 2000,
          "distinct_interleaving_signatures": 50}
-    for k in ("refs", "remote", "regex", "format", "types", "same-schema-object"):
-        f["collision:" + k] = 100
+    for k in ("refs", "remote", "regex", "format", "types", "same-schema-object", "verdicts"):
+        f["collision:" + k] = 60
     return f
 
 
@@ -92,6 +92,11 @@ def make_member(rng, d, k, kinds):
         fc.checks("shared-format")(lambda inst, accept=accept: inst == accept)
         props["f1"] = {"format": "shared-format"}
         props["f2"] = {"items": {"format": "shared-format"}}
+    if "verdicts" in kinds:
+        # content-equal subschemas in every member, instances that are equal in Python but different JSON values
+        props["v1"] = {"type": "boolean"}
+        props["v2"] = {"enum": [1, "x"]}
+        props["v3"] = {"items": {"type": "integer"}, "uniqueItems": True}
     if "types" in kinds:
         pick = rng.choice([int, str, list])
 
@@ -109,6 +114,10 @@ def make_member(rng, d, k, kinds):
     for n in names:
         v = rng.choice([1, "s", "x", "y", "ab", "ba", [1, "x"], ["y", 2], None, 20, {"x": [1, "q"]}, {"v": 1}, {"ab": 1, "xb": "s"}])
         inst[n] = v
+    if "verdicts" in kinds:
+        inst["v1"] = [True, 1, 1.0, False, 0][k % 5] if rng.random() < 0.8 else rng.choice([True, 1])
+        inst["v2"] = [1, True, 1.0, "x"][(k + 1) % 4]
+        inst["v3"] = [[1, True], [1, 1.0], [1, 2], [True, False]][k % 4]
     if rng.random() < 0.5:
         inst["extra"] = 0
 
@@ -124,7 +133,7 @@ def make_member(rng, d, k, kinds):
 
 def group_plan(gseed):
     rng = random.Random(gseed)
-    kinds = set(rng.sample(["refs", "remote", "regex", "format", "types"], rng.randrange(1, 4)))
+    kinds = set(rng.sample(["refs", "remote", "regex", "format", "types", "verdicts"], rng.randrange(1, 4)))
     n = rng.choice([2, 2, 3])
     if rng.random() < 0.3:
         # several validators built from the very same schema OBJECT (no resolver passed): each still gets its own resolver
@@ -434,7 +443,7 @@ def run(ctx):
     impl.quiet()
     rng = ctx.rng
     sigs = set()
-    for i in range(ctx.scale(60, 800)):
+    for i in range(ctx.scale(90, 900)):
         d = impl.DRAFTS[i % 4]
         gseed = rng.randrange(2 ** 32)
         one_group(ctx, gseed, d, do_threads=(i % 4 == 0), rounds=ctx.scale(15, 40), sigs=sigs)
